@@ -43,12 +43,18 @@ CHECK_DEADLOCK FALSE
     return lib.write_cases(res["msgs"], "CASE", path)
 
 
-def _history(v, props, end_compact):
+def _history(v, props, end_compact, extra_cases=()):
     quick = v.tier == "quick"
     binary = lib.build_harness()
     mc = _mc_semantics(v, 5 if quick else 7)
     cases = lib.outpath("cases", f"{v.prop}-hist.ndjson")
     ncases = _sim_cases(v, 30 if quick else 300, 14 if quick else 24, cases)
+    with open(cases, "a") as f:
+        for c in extra_cases:
+            c = dict(c)
+            c.pop("_tag", None)
+            f.write(json.dumps(c) + "\n")
+            ncases += 1
     runs = [(binary, "default")]
     if not quick:
         runs.append((lib.build_harness(("zstd",)), "zstd"))
@@ -91,8 +97,7 @@ CONSTANTS
   MaxCalls = {calls}
   EmptyCompactionDropsAll = {empty}
   GenFromTag = {gentag}
-INVARIANT OneCopy
-INVARIANT RefinesCore
+{invs}
 VIEW View
 {extra}
 CHECK_DEADLOCK FALSE
@@ -103,22 +108,34 @@ def _mc_impl(v):
     """IndexImpl.tla: the segment/tombstone/live-cache implementation refines IndexCore; the two
     generation mutations (seeded changes C04/C05) must be refuted by the same invariants."""
     quick = v.tier == "quick"
-    calls = 6 if quick else 8
-    cfg = lib.write_cfg("MC_IndexImpl_ideal_run.cfg", IMPL_CFG.format(ids="{1, 2}", calls=calls, empty="FALSE", gentag="FALSE", extra=""))
+    calls = 6 if quick else 7
+    both = "INVARIANT OneCopy\nINVARIANT RefinesCore"
+    cfg = lib.write_cfg("MC_IndexImpl_ideal_run.cfg", IMPL_CFG.format(ids="{1, 2}", calls=calls, empty="FALSE", gentag="FALSE", invs=both, extra=""))
     ideal = lib.tlc_mc("IndexImpl.tla", cfg, timeout=3000)
-    lib.require_mc_ok(ideal, "IndexImpl (as built)", need_actions=["NewWriter", "Add", "Delete", "Commit", "Rollback", "Compact"])
-    cfg = lib.write_cfg("MC_IndexImpl_gentag_run.cfg", IMPL_CFG.format(ids="{1, 2}", calls=10, empty="FALSE", gentag="TRUE", extra="CONSTRAINT SmallPending"))
-    r = lib.tlc_mc("IndexImpl.tla", cfg, timeout=1500, coverage=False)
-    lib.expect_mc_violation(r, "IndexImpl with generation taken from the handle's tag", {"OneCopy", "RefinesCore"})
-    cfg = lib.write_cfg("MC_IndexImpl_emptycompact_run.cfg", IMPL_CFG.format(ids="{1}", calls=15, empty="TRUE", gentag="FALSE", extra="CONSTRAINT SmallPending"))
-    r = lib.tlc_mc("IndexImpl.tla", cfg, timeout=1500, coverage=False)
-    lib.expect_mc_violation(r, "IndexImpl with empty compaction dropping every segment", {"OneCopy", "RefinesCore"})
-    return ideal, calls
+    lib.require_mc_ok(ideal, "IndexImpl (as built)", need_actions=["NewWriter", "DropWriter", "Add", "Delete", "Commit", "Rollback", "Compact"])
+    # the mutated designs: each counterexample's call history is printed (CASE) and replayed into
+    # the real code by the history driver, where the as-built code must behave like IndexCore
+    witnesses = []
+    wit = "INVARIANT RefinesOrWitness"
+    for name, what, ids, ncalls, empty, gentag in (
+            ("gentag", "IndexImpl with generation taken from the handle's tag", "{1, 2}", 10, "FALSE", "TRUE"),
+            ("emptycompact", "IndexImpl with empty compaction dropping every segment", "{1}", 15, "TRUE", "FALSE")):
+        for seed_workers in (1, 4):
+            cfg = lib.write_cfg(f"MC_IndexImpl_{name}_run.cfg", IMPL_CFG.format(ids=ids, calls=ncalls, empty=empty, gentag=gentag, invs=wit,
+                                                                                extra="CONSTRAINT SmallPending"))
+            r = lib.tlc_mc("IndexImpl.tla", cfg, workers=seed_workers, timeout=1500, coverage=False)
+            lib.expect_mc_violation(r, what, {"RefinesOrWitness"})
+            cases = [m for m in r["msgs"] if m.get("_tag") == "CASE"]
+            if not cases:
+                raise lib.ToolError(f"{what}: counterexample without a CASE line\n{r['raw'][-1500:]}")
+            witnesses += cases
+    return ideal, calls, witnesses
 
 
 def run_c04(v):
-    _history(v, {"C04"}, end_compact=False)
-    ideal, calls = _mc_impl(v)
+    ideal, calls, witnesses = _mc_impl(v)
+    _history(v, {"C04"}, end_compact=False, extra_cases=witnesses)
+    v.coverage["tlc_counterexamples_of_mutated_designs_replayed"] = len(witnesses)
     v.coverage["states"] += ideal["distinct"]
     v.coverage["transitions"] += ideal["states"]
     v.coverage["impl_refinement_model"] = {
